@@ -333,6 +333,50 @@ pub fn encode_natural<W: io::Write>(mut n: usize, w: &mut BitWriter<W>) -> io::R
     Ok(w.n_total_written() - n_start)
 }
 
+/// Verification hooks: pass-through to the private [`encode_node`].
+/// Add-only; off by default.
+#[cfg(feature = "verif-hooks")]
+pub mod verif_hooks {
+    use super::*;
+
+    /// Encode one node exactly as `encode_program` would when the post-order
+    /// iterator yields it at `index` with the given child indices.
+    pub fn encode_node_at<N: node::Marker>(
+        node: &node::Node<N>,
+        index: usize,
+        left_index: Option<usize>,
+        right_index: Option<usize>,
+        w: &mut BitWriter<&mut dyn io::Write>,
+    ) -> io::Result<()> {
+        super::encode_node(
+            PostOrderIterItem {
+                node: EncodeNode::Node(node),
+                index,
+                left_index,
+                right_index,
+            },
+            w,
+        )
+    }
+
+    /// Encode a hidden node exactly as `encode_program` would.
+    pub fn encode_hidden_at<N: node::Marker>(
+        cmr: Cmr,
+        index: usize,
+        w: &mut BitWriter<&mut dyn io::Write>,
+    ) -> io::Result<()> {
+        super::encode_node::<N>(
+            PostOrderIterItem {
+                node: EncodeNode::Hidden(cmr),
+                index,
+                left_index: None,
+                right_index: None,
+            },
+            w,
+        )
+    }
+}
+
 #[cfg(test)]
 mod test {
     use super::*;
